@@ -756,6 +756,17 @@ pub fn c08_case(fam: &str, idx: usize, seed: u64) -> Option<Case> {
     sc.paced = true;
     sc.peers.push((0, Box::new(ScriptedSender::new(script.clone(), 1, 2, ack()))));
     sc.observe_ms = 3 * bound_ms(&k.config(), 2000);
+    // the receiving user suspends and resumes between the first two (widely spaced) deliveries, i.e. with
+    // whatever gap the first delivery left and well before the EOF: resuming is no reason to send a NAK
+    // under the deferred procedure
+    let mut desc = desc;
+    let e_pos = script.order.iter().position(|i| *i == Item::E).unwrap_or(0);
+    if fam == "orders" && script.spacing_ms >= 300 && e_pos >= 2 && script.prompt_after.map_or(true, |p| p >= 2) && idx % 2 == 0 {
+        sc.preset_ids.push((0, cfdp_core::transaction::TransactionID(VariableID::from(1u16), VariableID::from(7u16))));
+        sc.scripts.push(Script { trig: Trigger::AfterArrive(1, 0), delay_ms: 20, act: Act::Prim(1, PrimKind::Suspend, 0) });
+        sc.scripts.push(Script { trig: Trigger::AfterArrive(1, 0), delay_ms: 170, act: Act::Prim(1, PrimKind::Resume, 0) });
+        desc.push_str(" + receiver suspended 20..170 ms after the first delivery");
+    }
     let mut cs = Case::from(sc, &k, format!("{} :: {}", k.describe(), desc), false);
     cs.info.desc.push_str(&format!(" size={}", script.size));
     Some(cs)
@@ -763,6 +774,9 @@ pub fn c08_case(fam: &str, idx: usize, seed: u64) -> Option<Case> {
 
 pub fn judge_c08(info: &Info, log: &RunLog, rep: &mut Report) {
     count_observed(rep, log);
+    if log.recs.iter().any(|r| matches!(&r.ev, Ev::Ind { ent: 1, ind: cfdp_core::daemon::Indication::Resumed(_) })) {
+        rep.count("c08_runs_with_receiver_suspend_resume");
+    }
     let t = &info.transfers[0];
     let k = &info.knobs[1];
     let seg = k.seg as usize;
@@ -1059,7 +1073,7 @@ pub fn run_c08(tier: &str, seed: u64, replay: Option<&str>) -> (Meta, Report) {
         rule: "one real receiving daemon against a scripted sender that knows exactly what it delivered. subsets = EVERY subset of {metadata, segment 0..n-1} lost, n = 0..6 segments, x 4 NAK procedures x segment sizes {16 (one request per NAK PDU: rounds split over several PDUs), 20 (not a multiple of the request size), 32} (complete), with 0 or 1 unanswered rounds and a duplicated EOF in every 5th case; orders = random loss subsets with arrival orders {in order, reversed, shuffled, EOF first, EOF in the middle, duplicates}, re-lost segments, 0-2 unanswered rounds, Prompt(NAK) at a random point, slow and fast pacing. The script answers a round 300 ms after its last PDU so that rounds are not cut short. distinct_nontrivial = distinct (config, size, event-order) signatures among runs in which at least one NAK was emitted.".into(),
         exhaustive: true,
         assumptions: vec!["the only size limit the configuration defines is the largest file-data PDU: header + offset + segment size (+CRC)".into(), "before EOF a request for bytes that arrived meanwhile is not judged (the statement demands exactness after EOF); it must still be well-formed".into()],
-        require: vec![("c08_nak_pdus_checked".into(), 1000), ("c08_rounds_after_eof_judged".into(), 1000), ("c08_rounds_split_over_several_pdus".into(), 100), ("c08_immediate_gaps_judged".into(), 100), ("c08_round_repeats_judged".into(), 200), ("c08_later_lives_judged(deferred)".into(), 200)],
+        require: vec![("c08_nak_pdus_checked".into(), 1000), ("c08_rounds_after_eof_judged".into(), 1000), ("c08_rounds_split_over_several_pdus".into(), 100), ("c08_immediate_gaps_judged".into(), 100), ("c08_round_repeats_judged".into(), 200), ("c08_later_lives_judged(deferred)".into(), 200), ("c08_runs_with_receiver_suspend_resume".into(), 50)],
         extra: vec![],
     };
     if let Some(r) = replay {
